@@ -2,6 +2,7 @@
 base strings, known-finding signatures (predicates over a failing case)."""
 
 KIND_NAMES = {
+    101: 'session/leech: download path of the stepped event loop (message, write-result, snub, disconnect handlers) under scripted honest/hostile peers vs Leech.v (piece assignments validated, everything else predicted)',
     102: 'C01/piecedl: piecedownloader vs PieceDl.v',
     1301: 'C13/infodl: infodownloader vs InfoDl.v',
     1302: 'C13/magnet: magnet.New(String()) vs Magnet.v (render then parse)',
@@ -46,7 +47,7 @@ TRUSTED_COMMON = [
 
 PROPS = {
     'C01': {
-        'kinds': {102: {'quick': 800, 'thorough': 20000}},
+        'kinds': {101: {'quick': 1500, 'thorough': 40000}, 102: {'quick': 800, 'thorough': 20000}},
         'trusted': ['SHA-1: a buffer whose digest equals the recorded hash is the recorded content (collision resistance)'],
         'assumptions': [],
     },
@@ -61,7 +62,7 @@ PROPS = {
         'assumptions': ['callers release only reservations they were granted (caller protocol)'],
     },
     'C09': {
-        'kinds': {901: {'quick': 1500, 'thorough': 40000}},
+        'kinds': {901: {'quick': 1500, 'thorough': 40000}, 101: {'quick': 1500, 'thorough': 40000}},
         'trusted': ['slices.SortFunc returns a permutation sorted by the key (ties in any order)', 'markFileEdges (file head/tail flags are taken from the real picker)'],
         'assumptions': ['the torrent loop calls the picker under the glue discipline modelled by Picker.pstep'],
     },
